@@ -17,6 +17,7 @@ import (
 func TestMain(m *testing.M) { vk.Main(m, "C17") }
 
 type Case struct {
+	BigN    int      `json:"big_n,omitempty"` // > 0: a very large generated key set (see bigKeys) instead of Keys
 	Keys    []vk.Hex `json:"keys"`
 	MaxSize int32    `json:"max_size"`
 	Class   string   `json:"class,omitempty"`
@@ -26,7 +27,7 @@ var checker = &vk.Checker[Case]{
 	ID: "C17",
 	Rule: "strictly ascending key lists from a random prefix tree (1..60 keys, thorough up to 2000): deep nested prefixes, a key equal to the common prefix of its successors, single key, keys differing in byte 0, NUL and >= 0x80 bytes, empty key; maxSize in {1,2,3,...,n-1,n,n+3}. " +
 		"Validity predicate (many outputs may be right): len(B)==len(L)+1, B[0]==0, B strictly increasing, B[k]==n, every shard <= maxSize keys, L[j] == byte length of the longest common prefix of the shard computed naively over all its keys (key length for a single key), shard prefixes strictly ascending. Nothing else about where the cuts are is demanded. " +
-		"Grid: all subsets of size 1..6 of a 14-key pool x maxSize 1..7. Non-trivial: n > maxSize and adjacent keys share common prefixes of >= 2 distinct byte lengths (nested splitting is needed). Distinct by hash of the case.",
+		"Grid: all subsets of size 1..6 of a 14-key pool x maxSize 1..7; two very large generated key sets (70 001 and 2^18+7 keys) x maxSize {1,50,5000}. Non-trivial: n > maxSize and adjacent keys share common prefixes of >= 2 distinct byte lengths (nested splitting is needed). Distinct by hash of the case.",
 	Check:    check,
 	Classify: classify,
 	Risky:    func(Case) bool { return true }, // the recursive split can overflow the stack: keep the running case on disk
@@ -44,15 +45,43 @@ func lcpBytes(keys []string) int {
 	return l
 }
 
+// bigKeys: n strictly ascending keys with nested shared prefixes (groups of 4096, 64 and single keys).
+func bigKeys(n int) []string {
+	keys := make([]string, n)
+	for i := range keys {
+		k := []byte{'g', byte(i >> 20), byte(i >> 12), '/', byte(i >> 6 & 63), '/', byte(i & 63)}
+		if i%9 == 4 {
+			k = append(k, 0, 0)
+		}
+		keys[i] = string(k)
+	}
+	return keys
+}
+
+func (c Case) keyStrings() []string {
+	if c.BigN > 0 {
+		return bigKeys(c.BigN)
+	}
+	return vk.Strings(c.Keys)
+}
+
 func check(c Case) *vk.Failure {
-	keys := vk.Strings(c.Keys)
-	orig := vk.Strings(c.Keys)
+	keys := c.keyStrings()
+	orig := c.keyStrings()
 	n := len(keys)
 	var L, B []int32
-	if f := vk.Try(fmt.Sprintf("ShardByPrefix(%d keys %x, %d)", n, keys, c.MaxSize), func() { L, B = sigbits.ShardByPrefix(keys, c.MaxSize) }); f != nil {
+	if f := vk.TryF(func() string {
+		if c.BigN > 0 {
+			return fmt.Sprintf("ShardByPrefix(%d generated keys, %d)", n, c.MaxSize)
+		}
+		return fmt.Sprintf("ShardByPrefix(%d keys %x, %d)", n, keys, c.MaxSize)
+	}, func() { L, B = sigbits.ShardByPrefix(keys, c.MaxSize) }); f != nil {
 		return f
 	}
 	desc := func() string {
+		if c.BigN > 0 {
+			return fmt.Sprintf("ShardByPrefix(%d generated keys, maxSize=%d) -> %d shards", c.BigN, c.MaxSize, len(L))
+		}
 		return fmt.Sprintf("ShardByPrefix(keys=%x, maxSize=%d) = L%v B%v", orig, c.MaxSize, L, B)
 	}
 	if len(B) != len(L)+1 {
@@ -97,6 +126,9 @@ func check(c Case) *vk.Failure {
 }
 
 func classify(c Case) (bool, []string) {
+	if c.BigN > 0 {
+		return true, []string{"class:very-large-key-set"}
+	}
 	keys := vk.Strings(c.Keys)
 	n := len(keys)
 	labels := []string{}
@@ -208,6 +240,11 @@ func TestGrid(t *testing.T) {
 		}
 		for ms := int32(1); ms <= 7; ms++ {
 			checker.Run(t, Case{Keys: vk.HexStrings(keys), MaxSize: ms, Class: "grid"})
+		}
+	}
+	for _, n := range []int{1<<18 + 7, 70001} { // very large key sets (size thresholds)
+		for _, ms := range []int32{1, 50, 5000} {
+			checker.Run(t, Case{BigN: n, MaxSize: ms, Class: "very-large-key-set"})
 		}
 	}
 	vk.MarkExhaustive("all subsets of size 1..6 of a 14-key pool x maxSize 1..7")
